@@ -364,6 +364,13 @@ def run_repair(case):
         ops.append({"op": "postprocess"})
     for o in ops:
         if isinstance(o.get("text"), bytes):          # a page saved with other line ends / another encoding: raw bytes
+            if o.get("via") == "buffer" and not o["text"].startswith(b"\xef\xbb\xbf"):
+                try:
+                    # an editor hands its buffer over as it is: Windows line ends and all
+                    o["text"] = o["text"].decode("utf-8")
+                    continue
+                except UnicodeDecodeError:
+                    pass
             o["text"] = {"hex": o["text"].hex()}
             o["via"] = "disk"
     res = c12_e2e.run_history({"mode": "disk", "files": hexify(files), "ops": ops}, alias_probe=False)
@@ -784,6 +791,12 @@ class C14(core.PropertyCheck):
         for t in ("text", "unknown_directive", "conflict"):
             pages = [{"name": "index", "toc": True, "blocks": []}, {"name": "alpha", "toc": True, "bom": True, "blocks": [{"t": "text", "n": 1}, {"t": t, "n": 2}]}]
             yield {"kind": "e2e", "pages": pages, "includes": [], "yaml": [], "config": dict(base_cfg), "toc_missing": []}
+        for t in ("conflict", "undefined_constant", "unknown_directive"):
+            # a fault on a page kept with Windows line ends, repaired and brought back through the EDITOR BUFFER (text handed over as it
+            # is, "\r\n" and all): what the open project reports has to be what a build of the saved file reports
+            pages = [{"name": "index", "toc": True, "blocks": []}, {"name": "alpha", "toc": True, "crlf": True, "blocks": [{"t": "text", "n": 1}, {"t": t, "n": 2}]}]
+            base = {"kind": "e2e", "pages": pages, "includes": [], "yaml": [], "config": dict(base_cfg), "toc_missing": []}
+            yield {"kind": "repair", "base": base, "target": {"type": "page", "name": "alpha", "path": "alpha.txt"}, "how": "update", "via": "buffer", "again": True}
         for style in ("plain", "multibyte", "crlf", "cr"):
             pages = [{"name": "index", "toc": True, "blocks": []}, {"name": "alpha", "toc": True, "blocks": [{"t": "text", "n": 1}]}]
             yield {"kind": "e2e", "pages": pages, "includes": [], "yaml": [], "config": dict(base_cfg), "toc_missing": [],
